@@ -177,6 +177,12 @@ def unjustified_changes(framing, streams, before, after, unit_of_store, loose=Fa
     masks = {}
     for data in streams:
         cands = ADU.candidates(framing, REQ, data, loose=loose) if framing != 'tls' else tls_candidates(data)
+        if loose and framing == 'ascii':
+            from .c07 import lenient_ascii_candidates
+            extra = [f for f in lenient_ascii_candidates(REQ, data) if not f.msg.get('malformed')]
+            if extra:
+                LOOSE_SLUGS.add('ascii-lrc-field-parsed-leniently')
+            cands = list(cands) + extra
         msgs = []
         for f in cands:
             if f.msg.get('malformed'):
@@ -331,13 +337,14 @@ def check(run, case):
         excuse |= {'unjustified-store-change-after-tcp-desync'}
     if 'ascii-bad-lrc-blocks-forever' in regs:
         excuse |= {'probe-unanswered-after-ascii-span'}
-    if 'pdu-trailing-bytes-ignored' in regs or 'fc15-quantity-vs-bytecount' in regs:
+    if 'pdu-trailing-bytes-ignored' in regs or 'fc15-quantity-vs-bytecount' in regs or 'ascii-lrc-field-parsed-leniently' in regs:
         excuse |= {'store-change-from-nonconformant-pdu'}
     left = set(kinds) - excuse
     used = {'twisted-udp-dead': {'probe-unanswered'}, 'twisted-listen-only-is-permanent': {'probe-unanswered'},
             'tcp-length-inconsistent-with-pdu': {'unjustified-store-change-after-tcp-desync'},
             'ascii-bad-lrc-blocks-forever': {'probe-unanswered-after-ascii-span'},
-            'pdu-trailing-bytes-ignored': {'store-change-from-nonconformant-pdu'}, 'fc15-quantity-vs-bytecount': {'store-change-from-nonconformant-pdu'}}
+            'pdu-trailing-bytes-ignored': {'store-change-from-nonconformant-pdu'}, 'fc15-quantity-vs-bytecount': {'store-change-from-nonconformant-pdu'},
+            'ascii-lrc-field-parsed-leniently': {'store-change-from-nonconformant-pdu'}}
     if not left:
         for slug in sorted(regs):
             if not (used.get(slug, set()) & set(kinds)):
@@ -345,6 +352,7 @@ def check(run, case):
             run.known(slug, {'twisted-udp-dead': 'Twisted UDP protocol raises TypeError on every datagram: it never serves anybody',
                              'twisted-listen-only-is-permanent': 'a force-listen-only request silences the Twisted front-end for every later connection',
                              'tcp-length-inconsistent-with-pdu': 'after an MBAP frame whose length disagrees with its PDU the TCP framer executes requests decoded from mis-aligned bytes',
+                             'ascii-lrc-field-parsed-leniently': 'an ASCII frame whose LRC field is not two hex digits is accepted (int(x,16) leniency) and executed',
                              'fc15-quantity-vs-bytecount': 'FC15 whose quantity exceeds the bits present is executed with the bits present',
                              'pdu-trailing-bytes-ignored': 'a checksum-valid frame whose PDU is a write request followed by extra bytes is executed (decode ignores trailing bytes)',
                              'ascii-bad-lrc-blocks-forever': "a ':' span that fails its check is never discarded: the serial line stays deaf"}[slug], case)
